@@ -20,7 +20,7 @@ func VerifC02Atomic() {
 	N := vnd.Param("N", 2)
 	L := vnd.Param("L", 1)
 	db := New(WithMetrics(&NopMetrics{}))
-	ta, err := NewTable[*vobj](db, "a", vIDIndex, vTagsIndex)
+	ta, err := NewTable[*vobj](db, "a", vIDIndex, vTagsIndex, vLPMIndex)
 	if err != nil {
 		panic(err)
 	}
@@ -32,8 +32,12 @@ func VerifC02Atomic() {
 	// pre-state: one object in each table, and a change iterator on A so that
 	// deletions are retained in the graveyard
 	w := db.WriteTxn(ta, tb)
-	ta.Insert(w, &vobj{id: []byte("p"), tags: [][]byte{{'t'}}})
+	ta.Insert(w, &vobj{id: []byte("p"), tags: [][]byte{{'t'}}, pfx: []byte{0x10}, plen: 4})
+	ta.Insert(w, &vobj{id: []byte("r"), tags: [][]byte{{'t'}}, pfx: []byte{0x10}, plen: 4})
+	ta.Insert(w, &vobj{id: []byte("s"), tags: [][]byte{{'t'}}, pfx: []byte{0x10}, plen: 4})
 	tb.Insert(w, &vobj{id: []byte("p")})
+	tb.Insert(w, &vobj{id: []byte("r")})
+	tb.Insert(w, &vobj{id: []byte("s")})
 	it, _ := ta.Changes(w)
 	doneI0 := ta.RegisterInitializer(w, "i0") // a committed, still pending initializer
 	_ = doneI0
@@ -42,9 +46,9 @@ func VerifC02Atomic() {
 	for range seq {
 	}
 
-	q := &c01queries{qid: []byte("p"), qtag: []byte("t")}
+	q := &c01queries{qid: []byte("p"), qtag: []byte("t"), qpfx: []byte{0x10}, qpl: 4}
 	observe := func(txn ReadTxn) *observation {
-		o := c01observe(da, txn, q, false)
+		o := c01observe(da, txn, q, true)
 		o.addSeq(tb.All(txn))
 		o.addGet(tb.Get(txn, vIDIndex.Query([]byte("p"))))
 		o.addSeq(tb.LowerBound(txn, ByRevision[*vobj](0)))
@@ -93,7 +97,7 @@ func VerifC02Atomic() {
 	for i := 0; i < N; i++ {
 		k := vnd.Bytes("k", L)
 		if vnd.Bool("insert") {
-			ta.Insert(w, &vobj{id: k, tags: [][]byte{{'t'}}, val: uint64(i)})
+			ta.Insert(w, &vobj{id: k, tags: [][]byte{{'t'}}, pfx: []byte{0x10}, plen: 4, val: uint64(i)})
 			tb.Insert(w, &vobj{id: k, val: uint64(i)})
 		} else {
 			ta.Delete(w, &vobj{id: k})
